@@ -23,10 +23,10 @@ LEVEL = 'exploration'
 EXHAUSTIVE = False      # sp/dp and the FPNum arithmetic are enumerated over stated alphabets, not over 2^32 / 2^64
 RULE = {
     'quick': 'hp: all 2^16 patterns; sp/dp: both signs x every exponent field value x the 64 mantissas whose set bits '
-             'lie in the top 3 or bottom 3 positions; two\'s complement: widths 1..10, every in-range value (signExtend '
+             'lie in the top 3 or bottom 3 positions plus the 8 values just below 2^mbits, runs of ones with a hole and the alternating patterns; two\'s complement: widths 1..10, every in-range value (signExtend '
              'also every out-of-range value in [-2^w, 2^(w+1)) and target widths w..w+6); FPNum arithmetic: all ordered '
-             'pairs of a 300-value alphabet (half patterns: 9 exponent fields x 16 mantissas x 2 signs, plus 12 sp '
-             'boundary values); FixedPoint: every (s,i,f), s in {0,1}, width 1..5, all raw pairs. A case is non-trivial '
+             'pairs of a 400-value alphabet (half patterns: 9 exponent fields x 22 mantissas x 2 signs, plus 12 sp '
+             'boundary values), each pair also through chains of operations on results ((a*b)^2, (a*b)^16, (a+b)*(a-b), ...); FixedPoint: every (s,i,f), s in {0,1}, width 1..5, all raw pairs. A case is non-trivial '
              'when its pattern / expected result is not all-zero. Exhaustive for hp, two\'s complement and FixedPoint at '
              'the bound; sp, dp and FPNum pairs are exhaustive over the stated alphabets only.',
     'thorough': 'hp: all 2^16 patterns; sp/dp: both signs x every exponent field value x the 1024 mantissas whose set '
@@ -393,6 +393,28 @@ def arith_checks(a, b):
                 signbit = 1 << sum(fp.geometry(f2)[:2])
                 if not ok or not isinstance(g, int) or (g != eb and not (exact == 0 and (g & ~signbit) == 0)):
                     bad(op + '.convert(representable)', hex(g) if isinstance(g, int) else g, hex(eb), target=f2)
+    # results are numbers like any other: they are operands of further exact operations (products of products need
+    # ever more precision: 16 half-precision factors carry a 2^320 denominator)
+    def chain():
+        pr = na.mul(nb)
+        sq, ex = pr, A * B
+        yield 'mul(mul)', sq.mul(sq), ex * ex
+        for _ in range(4):
+            sq, ex = sq.mul(sq), ex * ex
+        yield 'mul^16', sq, ex
+        sm, df = na.add(nb), na.sub(nb)
+        yield 'mul(add,sub)', sm.mul(df), (A + B) * (A - B)
+        yield 'add(mul(add,sub),mul)', sm.mul(df).add(pr), (A + B) * (A - B) + A * B
+        yield 'sub(mul^16,mul)', sq.sub(pr), ex - A * B
+    if not out:
+        try:
+            for name, r, exact in chain():
+                got = _val(r) if isinstance(r, FPNum) else None
+                if got is None or got != exact:
+                    bad('chain:' + name, 'components %r' % (r.components() if isinstance(r, FPNum) else r,), str(exact)[:200])
+                    break
+        except Exception as e:
+            bad('chain', 'raised %r' % (e,), 'exact rational arithmetic')
     ok, c = _call(na.compare, nb)
     obs.append(c)
     exp = _sgn(A - B)
